@@ -86,6 +86,43 @@ class Extractor:
     # -- refinement ---------------------------------------------------------
     def refine(self, st, test, pol):
         """list of states (copies) where `test` evaluates to `pol`"""
+        # a condition that reads an attribute of an enum-valued field (`self.mod_type.bl`, `.tsc_sets`, `.coding`) is
+        # decided per member: the field is fixed to each member still possible and the attribute becomes that
+        # member's constant (None / a non-member would raise AttributeError here: recorded like a None comparison)
+        ea = None
+        for n_ in ast.walk(test):
+            if isinstance(n_, ast.Attribute) and self.var_of(n_.value) is not None and self.fields[self.var_of(n_.value)] == "enum":
+                ea = n_
+                break
+        if ea is not None and not (isinstance(test, ast.Compare) and len(test.ops) == 1 and self.var_of(test.left) is not None
+                                   and str(self.var_of(test.left)).startswith("len(") and test.comparators[0] is ea):
+            ev_ = self.var_of(ea.value)
+            d_ = st[ev_]
+            if d_.none or OTHER in d_.syms:
+                self.none_cmp.append((test, ev_ + "." + ea.attr))
+            out_ = []
+            for m_ in self.members:
+                if m_.name not in d_.syms:
+                    continue
+
+                class Sub(ast.NodeTransformer):
+                    def visit_Attribute(self_, node):
+                        if self.var_of(node.value) == ev_:
+                            if node.attr not in m_.attrs:
+                                raise AnalysisError("enum attr %s missing" % node.attr)
+                            v_ = m_.attrs[node.attr]
+                            if not isinstance(v_, (int, str, bool, type(None))):
+                                raise AnalysisError("validate: enum attribute %s is not a scalar" % node.attr)
+                            return ast.copy_location(ast.Constant(value=v_), node)
+                        return self_.generic_visit(node)
+                import copy as _copy
+                sub_ = Sub().visit(_copy.deepcopy(test))
+                ast.fix_missing_locations(sub_)
+                for s_ in self._set(st, ev_, Dom(IntSet(), False, frozenset([m_.name]))):
+                    out_ += self.refine(s_, sub_, pol)
+            return out_
+        if isinstance(test, ast.Constant):
+            return [dict(st)] if bool(test.value) == pol else []
         if isinstance(test, ast.UnaryOp) and isinstance(test.op, ast.Not):
             return self.refine(st, test.operand, not pol)
         if isinstance(test, ast.BoolOp):
@@ -135,6 +172,9 @@ class Extractor:
 
     def refine_cmp(self, st, test, pol):
         a, op, b = test.left, test.ops[0], test.comparators[0]
+        if not self.mentions_field(test):
+            # a comparison of constants (after an enum attribute was fixed, or of named constants): decided outright
+            return [dict(st)] if bool(self.const_of(test, st)) == pol else []
         # type(self.X) is [not] Enum
         if isinstance(a, ast.Call) and canon(a.func) == "type" and len(a.args) == 1 \
                 and isinstance(op, (ast.Is, ast.IsNot, ast.Eq, ast.NotEq)):
